@@ -1,6 +1,7 @@
 import math
 import pickle
 import random
+import sys
 from collections.abc import Iterable, Mapping
 from pathlib import Path
 from typing import override
@@ -55,7 +56,7 @@ class RandomReplacementBuffer[T](DataBuffer[T, list[T]]):
             raise ValueError(
                 "replace_probability must be between 0.0 and 1.0 inclusive"
             )
-        super().__init__(int(max_size / replace_probability))
+        super().__init__(self._compute_max_queue_size(max_size, replace_probability))
         self._max_size = max_size
         self._data_list: list[T] = []
 
@@ -84,6 +85,20 @@ class RandomReplacementBuffer[T](DataBuffer[T, list[T]]):
         gamma = 0.5772156649015329  # Euler-Mascheroni constant
         p = max_size / survival_length * (math.log(max_size) + gamma)
         return min(max(p, 0.0), 1.0)  # Clamp value between 0 to 1.
+
+    @staticmethod
+    def _compute_max_queue_size(max_size: int, replace_probability: float) -> int:
+        """Compute the collector queue size, `max_size / replace_probability`.
+
+        The result is capped at `sys.maxsize` (the largest length a deque
+        accepts), which is also used when the probability is 0.0 or so small
+        that the quotient is not a finite number.
+        """
+        if replace_probability > 0.0:
+            ratio = max_size / replace_probability
+            if ratio < sys.maxsize:
+                return int(ratio)
+        return sys.maxsize
 
     @property
     def max_size(self) -> int:
